@@ -9,6 +9,7 @@ use vstd::std_specs::cmp::*;
 use vstd::std_specs::iter::*;
 use core::cmp::Ordering;
 use core::ops;
+use core::marker::PhantomData;
 verus! {
 """
 FILE_FOOTER = """
@@ -114,6 +115,18 @@ def apply_body_rules(rw, src, f, body_open, body_close, loops, cfg):
             raise Undecided(f"anchor lost: rewrite pattern {pat!r} not found in {f.key}")
         for k in hits:
             rw.replace(k, k + len(pt), rep, rule)
+    # R5-tail-loop: a `loop { .. break VALUE .. }` that is the function's tail expression: `break VALUE` -> `return VALUE`
+    if f.opts.get("tail_loop_return"):
+        tail = [lp for lp in loops if lp["kind"] == "loop" and lp["body_close"] == body_close - 1]
+        if not tail:
+            raise Undecided(f"anchor lost: {f.key} no longer ends in a `loop` expression")
+        lp = tail[0]
+        inner = [(l2["kw"], l2["body_close"]) for l2 in loops if l2 is not lp and lp["body_open"] < l2["kw"] < lp["body_close"]]
+        for q in range(lp["body_open"] + 1, lp["body_close"]):
+            if any(a <= q <= b for a, b in inner):
+                continue
+            if toks[q].kind == "ident" and toks[q].text == "break" and toks[q + 1].text not in (";", "}", ",") and toks[q + 1].kind != "life":
+                rw.replace(q, q + 1, "return", "R5-tail-loop-break-value")
     # R12: `for x in &mut E {`  ->  `for x in E.iter_mut() {`   (IntoIterator for &mut Vec<T> is iter_mut())
     for lp in loops:
         if lp["kind"] == "for" and toks[lp["in"] + 1].text == "&" and toks[lp["in"] + 2].text == "mut":
